@@ -1,5 +1,5 @@
 (* C08 — lemmas and proofs about C08/Model.v (all unbounded: induction over batches, cells, learn steps). *)
-From Coq Require Import List QArith Qminmax Qabs ZArith Bool Arith Lia Lqa Setoid Morphisms.
+From Coq Require Import List QArith Qminmax Qabs Qround ZArith Bool Arith Lia Lqa Setoid Morphisms.
 Import ListNotations.
 From AgileV Require Import C08.Model.
 Local Open Scope Q_scope.
@@ -509,3 +509,239 @@ Proof.
   exists {| exposed := [1]; hidden := [] |}, [0]. split; [reflexivity|].
   rewrite pinned_target_never_moves. cbn. intros H. inversion H; subst. discriminate.
 Qed.
+
+(* ================================================================ Rainbow: done masks the next observation *)
+Lemma add_at_length : forall l i v, length (add_at i v l) = length l.
+Proof. induction l as [|x t IH]; intros [|i] v; cbn; auto. Qed.
+
+Lemma nth_add_at : forall l k i v,
+  nth k (add_at i v l) 0 == nth k l 0 + (if ((k =? i) && (i <? length l))%nat then v else 0).
+Proof.
+  induction l as [|x t IH]; intros k i v.
+  - replace (add_at i v []) with (@nil Q) by (destruct i; reflexivity).
+    replace (nth k [] 0) with 0 by (destruct k; reflexivity).
+    replace (i <? length (@nil Q))%nat with false by (destruct i; reflexivity).
+    rewrite andb_false_r. ring.
+  - destruct i as [|i], k as [|k]; cbn [add_at nth length].
+    + rewrite Qred_correct. cbn. reflexivity.
+    + cbn. ring.
+    + cbn. ring.
+    + rewrite IH. cbn [Nat.eqb]. 
+      replace (S i <? S (length t))%nat with (i <? length t)%nat by reflexivity. reflexivity.
+Qed.
+
+Definition psum (l : list Q) : Q := fold_right Qplus 0 l.
+
+(* what atom (z, p) of the target distribution adds to cell k of the projection *)
+Definition rb_contrib (g vmin vmax dz : Q) (n : nat) (r d : Q) (zp : Q * Q) (k : nat) : Q :=
+  let b := rb_b g vmin vmax dz n r d (fst zp) in
+  let '(L, u) := rb_lu n b in
+  (if ((k =? Z.to_nat L) && (Z.to_nat L <? n))%nat then snd zp * (inject_Z u - b) else 0)
+  + (if ((k =? Z.to_nat u) && (Z.to_nat u <? n))%nat then snd zp * (b - inject_Z L) else 0).
+
+Lemma rb_project_fold g vmin vmax dz r d support p :
+  rb_project g vmin vmax dz r d support p =
+  fold_left (rb_step g vmin vmax dz (length support) r d) (combine support p) (repeat 0 (length support)).
+Proof. reflexivity. Qed.
+
+Lemma rb_step_length g vmin vmax dz n r d acc zp : length (rb_step g vmin vmax dz n r d acc zp) = length acc.
+Proof. unfold rb_step. destruct (rb_lu _ _) as [L u]. now rewrite !add_at_length. Qed.
+
+Lemma rb_step_nth g vmin vmax dz n r d acc zp k : length acc = n ->
+  nth k (rb_step g vmin vmax dz n r d acc zp) 0 == nth k acc 0 + rb_contrib g vmin vmax dz n r d zp k.
+Proof.
+  intros Hn. unfold rb_step, rb_contrib. destruct (rb_lu _ _) as [L u].
+  rewrite !nth_add_at, add_at_length, Hn. ring.
+Qed.
+
+Section GenericFold.
+Variables (A : Type) (f : list Q -> A -> list Q) (c : A -> nat -> Q) (n : nat).
+Hypothesis f_len : forall acc x, length (f acc x) = length acc.
+Hypothesis f_nth : forall acc x k, length acc = n -> nth k (f acc x) 0 == nth k acc 0 + c x k.
+
+Lemma gfold_length : forall xs acc, length (fold_left f xs acc) = length acc.
+Proof. induction xs as [|x t IH]; intros acc; cbn [fold_left]; auto. rewrite IH. apply f_len. Qed.
+
+Lemma gfold_nth k : forall xs acc, length acc = n ->
+  nth k (fold_left f xs acc) 0 == nth k acc 0 + psum (map (fun x => c x k) xs).
+Proof.
+  induction xs as [|x t IH]; intros acc Hn; cbn [fold_left map].
+  - unfold psum. cbn [fold_right]. ring.
+  - rewrite IH by (rewrite f_len; auto). rewrite f_nth by auto.
+    unfold psum. cbn [fold_right]. ring.
+Qed.
+End GenericFold.
+
+Lemma rb_fold_length g vmin vmax dz n r d : forall zps acc,
+  length (fold_left (rb_step g vmin vmax dz n r d) zps acc) = length acc.
+Proof. apply gfold_length. intros. apply rb_step_length. Qed.
+
+Lemma rb_fold_nth g vmin vmax dz n r d k : forall zps acc, length acc = n ->
+  nth k (fold_left (rb_step g vmin vmax dz n r d) zps acc) 0
+  == nth k acc 0 + psum (map (fun zp => rb_contrib g vmin vmax dz n r d zp k) zps).
+Proof.
+  apply (gfold_nth _ (rb_step g vmin vmax dz n r d) (rb_contrib g vmin vmax dz n r d) n).
+  - intros. apply rb_step_length.
+  - intros. apply rb_step_nth; auto.
+Qed.
+
+Lemma nth_repeat0 k n : nth k (repeat 0 n) 0 = 0.
+Proof. revert k; induction n; intros [|k]; cbn; auto. Qed.
+
+(* every cell of the projected distribution is the sum of the atoms' contributions (any done flag) *)
+Lemma rb_project_nth g vmin vmax dz r d support p k :
+  nth k (rb_project g vmin vmax dz r d support p) 0
+  == psum (map (fun zp => rb_contrib g vmin vmax dz (length support) r d zp k) (combine support p)).
+Proof.
+  rewrite rb_project_fold, rb_fold_nth by apply repeat_length. rewrite nth_repeat0. ring.
+Qed.
+
+Lemma clamp_sc_compat lo hi x y : x == y -> clamp_sc lo hi x == clamp_sc lo hi y.
+Proof. intros H. unfold clamp_sc. rewrite H. reflexivity. Qed.
+
+(* with done = 1 the position b does not depend on the atom *)
+Lemma rb_b_done g vmin vmax dz n r d z : d == 1 -> rb_b g vmin vmax dz n r d z == rb_b g vmin vmax dz n r d 0.
+Proof.
+  intros H. unfold rb_b. apply clamp_sc_compat.
+  assert (E : clamp_sc vmin vmax (r + (1 - d) * g * z) == clamp_sc vmin vmax (r + (1 - d) * g * 0)).
+  { apply clamp_sc_compat. rewrite H. ring. }
+  rewrite E. reflexivity.
+Qed.
+
+Lemma rb_lu_compat n b b' : b == b' -> rb_lu n b = rb_lu n b'.
+Proof. intros H. unfold rb_lu. rewrite (Qfloor_comp _ _ H), (Qceiling_comp _ _ H). reflexivity. Qed.
+
+Lemma rb_contrib_done g vmin vmax dz n r d z p k : d == 1 ->
+  rb_contrib g vmin vmax dz n r d (z, p) k == p * rb_contrib g vmin vmax dz n r d (0, 1) k.
+Proof.
+  intros H. unfold rb_contrib. cbn [fst snd].
+  pose proof (rb_b_done g vmin vmax dz n r d z H) as Eb.
+  rewrite (rb_lu_compat n _ _ Eb). destruct (rb_lu n (rb_b g vmin vmax dz n r d 0)) as [L u].
+  destruct ((k =? Z.to_nat L) && (Z.to_nat L <? n))%nat, ((k =? Z.to_nat u) && (Z.to_nat u <? n))%nat;
+    rewrite ?Eb; ring.
+Qed.
+
+Lemma psum_contrib_done g vmin vmax dz n r d k : d == 1 -> forall support p, length p = length support ->
+  psum (map (fun zp => rb_contrib g vmin vmax dz n r d zp k) (combine support p))
+  == psum p * rb_contrib g vmin vmax dz n r d (0, 1) k.
+Proof.
+  intros H. induction support as [|z zs IH]; intros [|p ps] Hl; try discriminate; cbn [combine map psum fold_right].
+  - ring.
+  - fold (psum (map (fun zp => rb_contrib g vmin vmax dz n r d zp k) (combine zs ps))). fold (psum ps).
+    rewrite IH by (cbn in Hl; congruence). rewrite (rb_contrib_done g vmin vmax dz n r d z p k H). ring.
+Qed.
+
+Lemma Forall2_Qeq_nth : forall l m, length l = length m -> (forall k, nth k l 0 == nth k m 0) -> Forall2 Qeq l m.
+Proof.
+  induction l as [|x l IH]; intros [|y m] Hl Hn; try discriminate; constructor.
+  - apply (Hn 0%nat).
+  - apply IH; [cbn in Hl; congruence|]. intros k. apply (Hn (S k)).
+Qed.
+
+Lemma rb_project_length g vmin vmax dz r d support p : length (rb_project g vmin vmax dz r d support p) = length support.
+Proof. rewrite rb_project_fold, rb_fold_length. apply repeat_length. Qed.
+
+(* done = 1: the projected distribution depends on the target distribution only through its total mass *)
+Lemma rb_project_done g vmin vmax dz r d support p p' : d == 1 ->
+  length p = length support -> length p' = length support -> qsum p == qsum p' ->
+  Forall2 Qeq (rb_project g vmin vmax dz r d support p) (rb_project g vmin vmax dz r d support p').
+Proof.
+  intros H Hp Hp' Hs. apply Forall2_Qeq_nth; [now rewrite !rb_project_length|].
+  intros k. rewrite !rb_project_nth, !psum_contrib_done by auto.
+  rewrite !qsum_plain in Hs. unfold psum. rewrite Hs. reflexivity.
+Qed.
+
+Lemma rb_elem_done_masks g vmin vmax dz support x x' :
+  r_d x == 1 -> r_r x = r_r x' -> r_d x = r_d x' -> r_logp x = r_logp x' ->
+  length (r_p x) = length support -> length (r_p x') = length support -> qsum (r_p x) == qsum (r_p x') ->
+  rb_elem g vmin vmax dz support x == rb_elem g vmin vmax dz support x'.
+Proof.
+  intros H Hr Hd Hl Hp Hp' Hs. unfold rb_elem. rewrite <- Hr, <- Hd, <- Hl.
+  assert (E : qsum (map2 Qmult (rb_project g vmin vmax dz (r_r x) (r_d x) support (r_p x)) (r_logp x))
+           == qsum (map2 Qmult (rb_project g vmin vmax dz (r_r x) (r_d x) support (r_p x')) (r_logp x))).
+  { apply qsum_compat. eapply Forall2_map2 with (RA := Qeq) (RB := Qeq).
+    - intros a a' b b' Ha Hb. rewrite Ha, Hb. reflexivity.
+    - apply rb_project_done; auto.
+    - apply Forall2_refl_Qeq. }
+  rewrite E. reflexivity.
+Qed.
+
+(* done = 1 and total mass 1: all mass sits on the (one or two) atoms around the reward; nothing of the
+   next observation's distribution is left *)
+Lemma rb_project_done_cells g vmin vmax dz r d support p k : d == 1 -> length p = length support ->
+  nth k (rb_project g vmin vmax dz r d support p) 0 == qsum p * rb_contrib g vmin vmax dz (length support) r d (0, 1) k.
+Proof. intros H Hp. rewrite rb_project_nth, psum_contrib_done, qsum_plain by auto. reflexivity. Qed.
+
+(* ================================================================ statements exactly as exported in props/C08.v *)
+Lemma done_target_is_reward_thm : forall r g d q, d == 1 -> bellman r g d q == r /\ bellman_ac r g d q == r.
+Proof. intros r g d q H. split; [exact (bellman_done r g d q H) | exact (bellman_ac_done r g d q H)]. Qed.
+
+Lemma done_masks_next_rows_thm : forall g double n rows rows' arows arows' lse,
+  Forall2 drow_same_but_next rows rows' -> Forall2 arow_same_but_next arows arows' ->
+  dqn_loss g double rows == dqn_loss g double rows' /\ cqn_loss g double rows lse == cqn_loss g double rows' lse /\
+  ac_loss g n arows == ac_loss g n arows'.
+Proof.
+  intros g double n rows rows' arows arows' lse H H'.
+  exact (conj (dqn_done_masks_rows g double rows rows' H)
+              (conj (cqn_done_masks_rows g double rows rows' lse H) (ac_done_masks_rows g n arows arows' H'))).
+Qed.
+
+Lemma loss_is_definition_actor_critic_thm : forall g rows,
+  ac_loss g 1 rows == mse (map (fun x => nthq (a_qs x) 0) rows) (map (ac_y g) rows) /\
+  ac_loss g 2 rows == mse (map (fun x => nthq (a_qs x) 0) rows) (map (ac_y g) rows)
+                    + mse (map (fun x => nthq (a_qs x) 1) rows) (map (ac_y g) rows).
+Proof. intros g rows. exact (conj (ac_loss_one g rows) (ac_loss_two g rows)). Qed.
+
+Lemma soft_update_tracks_thm : forall tau e t,
+  lerp tau e t - e == (1 - tau) * (t - e) /\
+  (0 <= tau -> tau <= 1 -> Qmin e t <= lerp tau e t /\ lerp tau e t <= Qmax e t) /\ lerp 1 e t == e.
+Proof. intros tau e t. exact (conj (lerp_contracts tau e t) (conj (lerp_between tau e t) (lerp_tau_one e t))). Qed.
+
+(* cell i after any number of learn calls with any policy delay: the recurrence over the calls that update *)
+Lemma fold_soft_cell tau : forall es target i t,
+  nth_error target i = Some t -> Forall (fun e => (i < length e)%nat) es ->
+  nth_error (fold_left (fun t e => soft_zip tau e t) es target) i = Some (cell_run tau t (map (fun e => nth i e 0) es)).
+Proof.
+  induction es as [|e rest IH]; intros target i t Ht Hall; cbn [fold_left map].
+  - exact Ht.
+  - inversion Hall; subst. unfold cell_run. cbn [fold_left]. apply IH; auto.
+    apply soft_zip_nth; auto. apply nth_error_nth'. auto.
+Qed.
+
+Lemma select_updates_incl pf : forall onlines c (P : list Q -> Prop),
+  Forall P onlines -> Forall P (select_updates pf c onlines).
+Proof.
+  induction onlines as [|e rest IH]; intros c P H; cbn [select_updates]; [constructor|].
+  inversion H; subst. destruct (S c mod pf =? 0)%nat; [constructor|]; auto.
+Qed.
+
+Lemma soft_update_k_fold_thm : forall tau pf onlines c target i t,
+  nth_error target i = Some t -> Forall (fun e => (i < length e)%nat) onlines ->
+  let es := map (fun e => nth i e 0) (select_updates pf c onlines) in
+  nth_error (run_soft tau pf c target onlines) i = Some (cell_run tau t es) /\
+  cell_run tau t es == qpow (1 - tau) (length es) * t + wsum tau es /\
+  select_updates 1 c onlines = onlines.
+Proof.
+  intros tau pf onlines c target i t H1 H2 es. split; [|split].
+  - rewrite run_soft_delay. apply fold_soft_cell; auto. apply select_updates_incl; auto.
+  - apply cell_run_closed.
+  - apply select_updates_pf1.
+Qed.
+
+Lemma soft_update_policy_delay_thm : forall tau pf onlines c target,
+  run_soft tau pf c target onlines = fold_left (fun t e => soft_zip tau e t) (select_updates pf c onlines) target /\
+  ((0 < pf)%nat -> length (select_updates pf c onlines) = ((c + length onlines) / pf - c / pf)%nat) /\
+  (forall online, (S c mod pf <> 0)%nat -> delayed_soft tau pf c online target = (S c, target)) /\
+  (forall online, (S c mod pf = 0)%nat -> delayed_soft tau pf c online target = (S c, soft_zip tau online target)).
+Proof.
+  intros tau pf onlines c target.
+  exact (conj (run_soft_delay tau pf onlines c target)
+          (conj (select_updates_length pf onlines c)
+            (conj (fun o => delayed_soft_no_update tau pf c o target) (fun o => delayed_soft_update tau pf c o target)))).
+Qed.
+
+Lemma soft_update_vacuous_refuted_thm :
+  (forall tau online w, weights (soft_update tau online (pinned_dqn_target w)) = w) /\
+  exists online w, length (weights online) = length w /\
+    ~ Forall2 Qeq (weights (soft_update 1 online (pinned_dqn_target w))) (weights online).
+Proof. exact (conj pinned_target_never_moves soft_update_vacuous_refuted_lemma). Qed.
